@@ -1,4 +1,5 @@
 CONSTANTS
+  DeepNs = {64}
   Ns = {8}
   Bs = {3, 5}
   MaxS = 3
